@@ -90,23 +90,30 @@ Fixpoint filter_by {A} (keep : list bool) (l : list A) : list A :=
   | _, _ => []
   end.
 
-(** the outgroup was removed: tips = old tips minus the outgroup, path lengths among the rest unchanged *)
-Definition removed_obs (t g : utree) (P : list string) : option string :=
+(** the outgroup was removed.  [exact]: the outgroup is one side of a split -- tips = old tips
+    minus the outgroup; otherwise (non-monophyletic, non-strict): the remaining tips are some of
+    the old tips minus the outgroup.  In both cases the path lengths among the remaining tips are
+    unchanged. *)
+Definition removed_obs (exact : bool) (t g : utree) (P : list string) : option string :=
   if negb (wf g) then Some "result is not a well-formed rooted structure"
-  else if negb (sset_eqb (ssort (sdiff (leaves t) P)) (ssort (leaves g)))
-       then Some "the tips of the result are not the old tips minus the outgroup"
   else
-    let keep := map (fun x => negb (smem x P)) (ssort (leaves t)) in
-    let sub := filter_by keep (map (filter_by keep) (dist_matrix len0 t)) in
-    if negb (matrix_eqb sub (dist_matrix len0 g))
-    then Some "a path length between two remaining tips changed" else None.
+    let ts := ssort (leaves t) in
+    let keep := map (fun x => negb (smem x P) && smem x (leaves g)) ts in
+    if negb (sset_eqb (filter_by keep ts) (ssort (leaves g)))
+    then Some "the tips of the result are not among the old tips minus the outgroup"
+    else if exact && negb (sset_eqb (ssort (sdiff (leaves t) P)) (ssort (leaves g)))
+    then Some "the tips of the result are not the old tips minus the outgroup"
+    else
+      let sub := filter_by keep (map (filter_by keep) (dist_matrix len0 t)) in
+      if negb (matrix_eqb sub (dist_matrix len0 g))
+      then Some "a path length between two remaining tips changed" else None.
 
 Definition oracle_outgroup_ok (remove strict : bool) (t g : utree) (names : list string) : option string :=
   let P := present t names in
   let side := is_side t P in
   if negb side && strict && negb (sset_eqb P []) && negb (sset_eqb P (tipset t))
   then Some "a non-monophyletic outgroup was accepted in strict mode"
-  else if remove then removed_obs t g P
+  else if remove then removed_obs side t g P
   else match same_tree_obs t g with
        | Some m => Some m
        | None =>
@@ -142,14 +149,9 @@ Definition oracle_outgroup_ok (remove strict : bool) (t g : utree) (names : list
          end
        end.
 
-(** a refusal is questioned only where the text promises an outcome: a non-monophyletic
-    outgroup in non-strict mode "ends up inside one root clade" *)
+(** a refusal is never questioned: the text speaks of what a successful rooting looks like *)
 Definition oracle_outgroup_refused (remove strict : bool) (t : utree) (names : list string) : option string :=
-  let P := present t names in
-  if negb strict && negb remove && negb (is_side t P) && negb (sset_eqb P []) &&
-     negb (sset_eqb P (tipset t)) && distinct_names t && all_lengths t
-  then Some "a non-monophyletic outgroup was refused in non-strict mode"
-  else None.
+  None.
 
 Definition qmax_list (l : list Q) : Q := fold_right (fun x acc => if Qle_bool acc x then x else acc) 0%Q l.
 Definition depth_of (ds : list (string * Q)) (a : string) : option Q :=
